@@ -17,6 +17,7 @@ THEOREMS = [
     "Verif.C04.over_errors",
     "Verif.C04.by_spec",
     "Verif.C04.by_ts_refused",
+    "Verif.C04.by_window_spec",
     "Verif.C04.to_is_over",
     "Verif.C04.to_windows",
     "Verif.C04.to_windows_disjoint",
@@ -25,6 +26,7 @@ THEOREMS = [
     "Verif.C04.to_eq_by",
     "Verif.C04.to_multiple_eq_by_dropLast",
     "Verif.C04.to_single_block_refused",
+    "Verif.C04.to_window_spec",
     "Verif.C04.F3_witness",
     "Verif.C04.like_same_timestamps",
     "Verif.C04.like_value_spec",
@@ -47,7 +49,12 @@ RULE = (
     "+ seeded random (variable-spacing time series with force, ceil/safe on non-divisors, ordered range lists drawn around "
     "sample boundaries, references with one frame-rate change in either direction with or without the long frame, "
     "arbitrary strictly increasing references for correspondence only, channel arithmetic with equal / shifted / "
-    "truncated timestamps) + malformed stream (non-list or empty range lists, rows of wrong length, invalid where/method, "
+    "truncated timestamps) + long recordings (stream long: continuous channels given by a value rule, a few blocks or "
+    "an arbitrary stretch longer than a round length j*2^p / 10^e; quick: one of 2^23+ samples downsampled_by a factor "
+    "coprime to 10 with all five reducers on the same object, one of j*2^p, p in 10..21, and one to-vs-by with a large "
+    "factor; thorough: p = 10..24, round decimal and random lengths; the WHOLE answer is judged by a NumPy oracle that "
+    "finds every window from the timestamps, the model answers windows of it at both ends, beyond the end and around "
+    "every round source offset: ops c04.bywin / c04.towin) + malformed stream (non-list or empty range lists, rows of wrong length, invalid where/method, "
     "upsampling, variable spacing without force, time-series by, wrong reference kinds, factor 0). Values are integers "
     "or dyadic rationals (exact in double). Non-trivial: a successful answer with at least one output sample from a "
     "source that holds more samples than the output (so some window reduced several samples or samples were left "
@@ -58,6 +65,7 @@ TRUSTED = [
     "the integer target step int(1e9/frequency) is computed by the harness and handed to the model (the float division is outside the model)",
     "numpy's treatment of reduce on an empty window in downsampled_like (nan for mean/median, 0 for sum, ValueError for min/max) is canonicalised by the harness, not modelled",
     "timestamps below 2^62 (np.int64 overflow is outside the model)",
+    "long recordings: source values are generated from the rule ((a*i + b*(i//w)) % m - c) / den by NumPy int64 arithmetic in the harness and by Nat/Int arithmetic in the model (Rule.val); the whole answer is judged by harness/c04.py judge_long (NumPy searchsorted / reduceat / sort on exact int64 numerators), the model is compared on windows only",
 ]
 ASSUMPTIONS = [
     "continuous channels have dt >= 1; time-series timestamps are int64, strictly increasing for downsampled_to and for reference channels, non-decreasing elsewhere",
@@ -192,6 +200,266 @@ def target_of(freq):
     return int(1e9 / freq)
 
 
+# ------------------------------------------------------------------ long channels given by a rule
+#
+# A recording of a minute at 78.125 kHz holds millions of samples.  Such a source is described by a RULE instead of a
+# value list:  {"kind": "rule", "start", "dt", "n", "rule": [a, b, w, m, c, den]}  with
+# sample i = ((a*i + b*(i // w)) % m - c) / den   (small integers / dyadics: sums are exact in double).
+# The whole answer of the implementation is judged by `judge_long` (NumPy, written from the property text: windows
+# are found from the TIMESTAMPS); the Lean model answers windows of it (ops c04.bywin / c04.towin,
+# theorems by_window_spec / to_window_spec) around round source offsets, at both ends and beyond the end.
+
+LONG = 1 << 16  # sources longer than this are counted as "long" in the coverage
+
+
+def is_rule(src):
+    return src.get("kind") == "rule"
+
+
+def src_len(src):
+    return src["n"] if is_rule(src) else len(src["vals"])
+
+
+def rule_numerators(src):
+    """int64 numerators of the samples of a rule source (values are numerators / den)"""
+    a, b, w, m, c, den = src["rule"]
+    i = np.arange(src["n"], dtype=np.int64)
+    num = a * i
+    if b:
+        num += b * (i // w)
+    num %= m
+    num -= c
+    return num
+
+
+def build_long(src):
+    channel = _ch()
+    data = rule_numerators(src).astype(float)
+    den = src["rule"][5]
+    if den != 1:
+        data /= den
+    return channel.Slice(channel.Continuous(data, src["start"], src["dt"]))
+
+
+def rule_tokens(src):
+    return f"{src['start']} {src['dt']} {src['n']} {enc_list(src['rule'])}"
+
+
+def round_offsets(n):
+    """source offsets at which an implementation could plausibly switch buffers / chunks: powers of two and of ten and
+    the multiples of the largest ones below n, most important first"""
+    out = []
+    p = n.bit_length() - 1
+    while p >= 8:
+        out.append(1 << p)
+        p -= 1
+    big = 1 << max(16, n.bit_length() - 4)
+    out += [j * big for j in range(1, 17) if j * big < n]
+    e = 10 ** (len(str(n)) - 1)
+    while e >= 1000:
+        out += [j * e for j in range(1, 10) if j * e < n]
+        e //= 10
+        if len(out) > 60:
+            break
+    seen, res = set(), []
+    for o in out:
+        if 0 < o < n and o not in seen:
+            seen.add(o)
+            res.append(o)
+    return res
+
+
+def long_windows(n, k, budget=600000):
+    """[(i0, cnt)] windows of the downsampled channel the model is asked for: both ends, one sample beyond the end, and
+    the samples whose blocks touch a round source offset (block before / containing / after); at most `budget` source
+    samples in total"""
+    q = n // k
+    wins = [(max(q - 2, 0), 4), (0, 2)]
+    for o in round_offsets(n):
+        b = o // k
+        wins.append((max(b - 1, 0), 3))
+    out, seen, cost = [], set(), 0
+    for w in wins:
+        if w in seen:
+            continue
+        c = w[1] * k
+        if out and len(out) >= 2 and cost + c > budget:
+            continue
+        seen.add(w)
+        out.append(w)
+        cost += c
+    return sorted(out)
+
+
+def show_windows(ts, data, wins):
+    return " ".join(show(ts[i0 : i0 + cnt], data[i0 : i0 + cnt]) for i0, cnt in wins)
+
+
+def judge_long(src, step, reduce, where, ts_out, data_out, what, memo=None):
+    """The property, evaluated on the WHOLE answer for windows of `step` ns on a rule source.
+    Returns (clause | None, deviation).  Every window [start + i*step, start + (i+1)*step) lying inside the span
+    [start, start + n*dt) must be represented by one sample: the reduction of exactly the source samples whose
+    timestamps lie inside it, stamped with the midpoint of the first and last of them (center) or the window start."""
+    start, dt, n = src["start"], src["dt"], src["n"]
+    den = src["rule"][5]
+    ts_out = np.asarray(ts_out)
+    data_out = np.asarray(data_out, dtype=float)
+    if len(ts_out) != len(data_out):
+        return f"{what}: {len(ts_out)} timestamps for {len(data_out)} values", "other"
+    memo = {} if memo is None else memo  # source values and window geometry are shared by the calls of one case
+    stop = start + n * dt
+    q = (stop - start) // step  # windows lying entirely inside the span
+    if ("geometry", step) not in memo:
+        ts_src = start + dt * np.arange(n, dtype=np.int64)
+        edges = start + step * np.arange(q + 1, dtype=np.int64)
+        lo = np.searchsorted(ts_src, edges[:-1], "left")  # first source sample with t >= window start
+        hi = np.searchsorted(ts_src, edges[1:], "left")  # first source sample with t >= window stop
+        mid = (ts_src[lo] + ts_src[hi - 1]) // 2 if q else np.zeros(0, dtype=np.int64)
+        memo["geometry", step] = (edges, lo, hi, mid)
+        del ts_src
+    edges, lo, hi, mid = memo["geometry", step]
+    cnt = hi - lo
+    if q and cnt.min() <= 0:
+        return "harness-bug: empty window on a long source", "other"
+    if "num" not in memo:
+        memo["num"] = rule_numerators(src)
+    num = memo["num"]
+    used = int(hi[-1]) if q else 0
+    if q == 0:
+        exp = np.zeros(0)
+        exp_ts = np.zeros(0, dtype=np.int64)
+    else:
+        exp_ts = mid if where == "center" else edges[:-1]
+        if reduce in ("sum", "mean"):
+            tot = np.add.reduceat(num[:used], lo)
+            exp = tot / den if reduce == "sum" else tot / (cnt * den)
+        elif reduce == "min":
+            exp = np.minimum.reduceat(num[:used], lo) / den
+        elif reduce == "max":
+            exp = np.maximum.reduceat(num[:used], lo) / den
+        elif reduce == "median":
+            # sort the samples inside every window: one sort on (window, value)
+            base = int(num[:used].min())
+            width = int(num[:used].max()) - base + 1
+            key = np.repeat(np.arange(q, dtype=np.int64), cnt) * width + (num[:used] - base)
+            key.sort()
+            a = key[lo + (cnt - 1) // 2] % width + base
+            b = key[lo + cnt // 2] % width + base
+            del key
+            exp = (a + b) / (2 * den)
+        else:
+            raise ValueError(reduce)
+
+    def bad_index(ts_g, v_g, ts_e, v_e):
+        m = min(len(v_g), len(v_e))
+        bad = (ts_g[:m] != ts_e[:m]) | ~(np.abs(v_g[:m] - v_e[:m]) <= 1e-9 * np.maximum(1.0, np.abs(v_e[:m])))
+        idx = np.flatnonzero(bad)
+        return idx
+
+    if len(data_out) == q:
+        idx = bad_index(ts_out, data_out, exp_ts, exp)
+        if idx.size == 0:
+            return None, "none"
+    dev = "other"
+    if q and len(data_out) == q - 1 and bad_index(ts_out, data_out, exp_ts[:-1], exp[:-1]).size == 0:
+        dev = "only_last_full_window_missing"
+    idx = bad_index(ts_out, data_out, exp_ts, exp)
+    detail = ""
+    if idx.size:
+        i = int(idx[0])
+        a = start + i * step
+        detail = (
+            f"; {idx.size} of the first {min(len(data_out), q)} samples are wrong, the first is sample {i}: "
+            f"({int(ts_out[i])}, {float(data_out[i])!r}) but {reduce} of the {int(cnt[i])} source samples inside "
+            f"[{a}, {a + step}) (source indices {int(lo[i])}..{int(hi[i]) - 1}) is {float(exp[i])!r} at {int(exp_ts[i])}"
+        )
+    return (
+        f"{what}: every window of {step} ns inside [start, stop) must be represented by the {reduce} of exactly its "
+        f"source samples: expected {q} samples, implementation returned {len(data_out)}{detail}",
+        dev,
+    )
+
+
+def _call_long(case):
+    """by / to on a long rule source.  One object serves all the calls of the case (several reducers one after the
+    other), the whole answers are judged right away (`_long`: clause and deviation per answer) and only the
+    windows the model is asked for are kept as strings."""
+    src, k = case["src"], case["k"]
+    s = build_long(src)
+    wins = long_windows(src["n"], k)
+    verdicts, out, memo = [], [], {}
+    if case["op"] == "bylong":
+        _warm(lambda: s.downsampled_by(k, reduce=_other_reduce(case["reducers"][0])))
+        for red in case["reducers"]:
+            try:
+                r = s.downsampled_by(k, reduce=np_reduce(red))
+                ts, data = r.timestamps, r.data
+                clause, dev = judge_long(src, k * src["dt"], red, "center", ts, data, "bylong", memo)
+                if clause is None and int(r._src.dt) != k * src["dt"]:
+                    clause = f"bylong: period of the result is {int(r._src.dt)}, expected {k * src['dt']}"
+                verdicts.append((clause, dev))
+                out.append(f"ok {int(r._src.dt)} {len(data)} " + show_windows(ts, data, wins))
+            except Exception as e:
+                verdicts.append((f"bylong: refused a valid factor: {errname(e)}", "other"))
+                out.append(errname(e))
+    else:  # tobylong
+        red = case["reduce"]
+        _warm(lambda: s.downsampled_by(k, reduce=_other_reduce(red)))
+        try:
+            r = s.downsampled_to(case["freq"], reduce=np_reduce(red), where=case["where"], method=case["method"])
+            ts_to, d_to = np.asarray(r.timestamps), np.asarray(r.data)
+            verdicts.append(judge_long(src, target_of(case["freq"]), red, case["where"], ts_to, d_to, "to", memo))
+            out.append(f"ok {len(d_to)} " + show_windows(ts_to, d_to, wins))
+        except Exception as e:
+            ts_to = None
+            span, step = src["n"] * src["dt"], target_of(case["freq"])
+            if errname(e) == "ValueError" and span < step:
+                verdicts.append((None, "none"))  # no complete window at all: a refusal is as good as an empty result
+            elif errname(e) == "ValueError" and span == step:
+                verdicts.append((f"to: the single window of {step} ns inside [start, stop) must be represented, got ValueError", "only_last_full_window_missing"))
+            else:
+                verdicts.append((f"to: a valid target frequency was refused: {errname(e)}", "other"))
+            out.append(errname(e))
+        try:
+            r = s.downsampled_by(k, reduce=np_reduce(red))
+            ts, data = np.asarray(r.timestamps), np.asarray(r.data)
+            clause, dev = judge_long(src, k * src["dt"], red, "center", ts, data, "bylong", memo)
+            verdicts.append((clause, dev))
+            out.append(f"ok {int(r._src.dt)} {len(data)} " + show_windows(ts, data, wins))
+            # consistency of the two methods (whatever the expected values are)
+            if ts_to is not None and case["where"] == "center":
+                m = min(len(ts), len(ts_to))
+
+                def eq(x, y):
+                    return len(x) == len(y) and bool(np.all(np.abs(x - y) <= 1e-9 * np.maximum(1.0, np.abs(y))))
+
+                same = len(ts) == len(ts_to) and np.array_equal(ts, ts_to) and eq(data, d_to)
+                if not same:
+                    missing_last = len(ts_to) == len(ts) - 1 and np.array_equal(ts[:m], ts_to) and eq(data[:m], d_to)
+                    verdicts.append(
+                        (f"to-vs-by: downsampled_to(f_s/{k}) returned {len(ts_to)} samples, downsampled_by({k}) {len(ts)}"
+                         + ("" if missing_last else "; they differ in samples present in both"),
+                         "only_last_full_window_missing" if missing_last else "other")
+                    )
+        except Exception as e:
+            verdicts.append((f"bylong: refused a valid factor: {errname(e)}", "other"))
+            out.append(errname(e))
+    case["_long"] = verdicts
+    return out
+
+
+def long_clause(case, ia):
+    """first violated clause of a long case (by before to: a wrong block must not hide behind finding F3)"""
+    if "_long" not in case:
+        _call_long(case)  # the scratch entry is not serialised: a replayed / copied case is evaluated again
+    v = case["_long"]
+    for want_by in (True, False):
+        for clause, dev in v:
+            if clause and clause.startswith("bylong") == want_by:
+                return clause, dev
+    return None, "none"
+
+
 # ------------------------------------------------------------------ impl / ops
 
 
@@ -212,6 +480,8 @@ def _call(case):
     with a different reducer ON THE SAME OBJECT, so that a result remembered from an earlier call (keyed on less than
     all arguments) shows up as a wrong value here."""
     k = case["op"]
+    if k in ("bylong", "tobylong"):
+        return _call_long(case)
     if k == "over":
         s = build(case["src"])
         rl = case["ranges"]
@@ -308,6 +578,16 @@ def ops(case):
         return out
     if k == "by":
         return [f"c04.by {src_tokens(case['src'])} {case['reduce']} {case['k']}"]
+    if k in ("bylong", "tobylong"):
+        src = case["src"]
+        wins = "[" + ";".join(f"{a},{b}" for a, b in long_windows(src["n"], case["k"])) + "]"
+        if k == "bylong":
+            return [f"c04.bywin {rule_tokens(src)} {red} {case['k']} {wins}" for red in case["reducers"]]
+        exact = case["where"] == "center" and case["method"] in ("safe", "ceil", "force") and target_of(case["freq"]) == case["k"] * src["dt"]
+        return [
+            f"c04.towin {rule_tokens(src)} {case['reduce']} {case['k']} {wins}" if exact else "c04.outside-the-model",
+            f"c04.bywin {rule_tokens(src)} {case['reduce']} {case['k']} {wins}",
+        ]
     if k == "like":
         return [f"c04.likepw {src_tokens(case['src'])} {case['reduce']} {src_tokens(case['ref'])}"]
     if k == "arith":
@@ -325,6 +605,8 @@ def split_answer(ans):
 def agree(case, i, ia, ma):
     if not in_model(case):
         return True  # judged by the oracle only (documented refusal)
+    if case["op"] == "tobylong" and ops(case)[i] == "c04.outside-the-model":
+        return True
     ti, tm = split_answer(ia), split_answer(ma)
     if ti is None or tm is None:
         if case["op"] == "like" and ti is None and tm is not None and ia == "ValueError" and case["reduce"] in ("min", "max"):
@@ -560,6 +842,8 @@ def oracle_like(case, ans):
 def oracle(case, ia):
     k = case["op"]
     ans = ia[0]
+    if k in ("bylong", "tobylong"):
+        return long_clause(case, ia)[0]
     if k == "over":
         src = case["src"]
         shape = case.get("ranges_shape", "list")
@@ -636,6 +920,8 @@ def nontrivial(case, ia):
     toks = split_answer(ia[0])
     if toks is None:
         return False
+    if k in ("bylong", "tobylong"):
+        return case["k"] >= 2 and case["src"]["n"] >= case["k"]
     if k in ("over", "to", "toby", "like"):
         got = parse_samples(toks[0])
         n_src = len(case["src"]["vals"])
@@ -650,6 +936,13 @@ def nontrivial(case, ia):
 def tags(case, r):
     t = {"op": case["op"]}
     k = case["op"]
+    if k == "tobylong":
+        clause, dev = long_clause(case, r["impl"])
+        src = case["src"]
+        step = target_of(case["freq"])
+        t.update({"op": "to", "kind": "cont", "span_multiple_of_step": step > 0 and (src["n"] * src["dt"]) % step == 0,
+                  "deviation": dev if clause is None or clause.startswith("to") else "other"})
+        return t
     if k in ("to", "toby") and in_model(case):
         src = case["src"]
         t["op"] = "to"
@@ -726,7 +1019,49 @@ def _candidates(case):
         yield c
 
 
+IDENTITY_RULE = [1, 0, 1, 1 << 40, 0, 1]  # sample i = i
+
+
+def _shrink_long(case):
+    """one reducer, the rule `sample i = i`, then the smallest failing length by bisection (every step runs the
+    implementation on a long input, so the search is done here once and a single candidate is offered)"""
+    if case.get("_shrunk"):
+        return
+    want = failure_class(case)
+    if not want[0]:
+        return
+
+    def variant(c, **src_changes):
+        d = {k: v for k, v in c.items() if not str(k).startswith("_")}
+        d["src"] = dict(c["src"], **src_changes)
+        return d
+
+    cur = variant(case)
+    if case["op"] == "bylong" and len(case["reducers"]) > 1:
+        for red in case["reducers"]:
+            c = dict(cur, reducers=[red])
+            if failure_class(c) == want:
+                cur = c
+                break
+    c = variant(cur, rule=list(IDENTITY_RULE))
+    if failure_class(c) == want:
+        cur = c
+    lo, hi = 0, cur["src"]["n"]
+    while hi - lo > 1:
+        mid = (lo + hi) // 2
+        if failure_class(variant(cur, n=mid)) == want:
+            hi = mid
+        else:
+            lo = mid
+    cur = variant(cur, n=hi)
+    cur["_shrunk"] = True
+    yield cur
+
+
 def shrink(case):
+    if case["op"] in ("bylong", "tobylong"):
+        yield from _shrink_long(case)
+        return
     want = failure_class(case)
     for c in _candidates(case):
         if not want[0]:
@@ -868,8 +1203,86 @@ def window_starts_sorted(T):
     return all(a <= b for a, b in zip(s, s[1:]))
 
 
+def coprime10(k):
+    """the nearest factor >= k that shares no divisor with 10: no round buffer size (2^a * 5^b) is a multiple of it"""
+    while k % 2 == 0 or k % 5 == 0:
+        k += 1
+    return k
+
+
+def rand_rule(rng, rich=False):
+    if not rich and rng.chance(0.15):
+        return list(IDENTITY_RULE)
+    m = rng.choice([1 << 20, 1000003] if rich else [1 << 20, 1000003, 4093, 256, 7])
+    a = rng.choice([3, 2654435, rng.randint(1, 1 << 22) | 1] + ([] if rich else [1]))
+    b = rng.choice([0, 0, 31337, rng.randint(1, 1 << 16)])
+    w = rng.choice([1, 977, rng.randint(2, 5000)])
+    return [a, b, w, m, rng.choice([0, m // 2]), rng.choice([1, 1, 8])]
+
+
+def rule_src(rng, n, rich=False):
+    start = rng.choice([0, 1592916040906356300, rng.randint(0, 2**60)])
+    dt = rng.choice([1, 3, 12800, 12800, rng.randint(1, 10**5)])
+    return {"kind": "rule", "start": start, "dt": dt, "n": n, "rule": rand_rule(rng, rich)}
+
+
+def by_long_case(rng, base_len, k, few_blocks_beyond, n_reducers, rich=False):
+    """a channel a little longer than the round length `base_len`"""
+    if few_blocks_beyond:  # at least one whole block lies beyond the round length
+        extra = rng.choice([k, k + 1, 2 * k - 1, 2 * k, 3 * k + 1, rng.randint(k, 64 * k)])
+    else:
+        extra = rng.choice([0, 1, k - 1, k, k + 1, 2 * k, rng.randint(0, max(1, base_len // 4))])
+    reducers = list(REDUCERS)
+    rng.shuffle(reducers)
+    return {"stream": "long", "op": "bylong", "src": rule_src(rng, base_len + extra, rich), "k": k, "reducers": reducers[:n_reducers]}
+
+
+def toby_long_case(rng, base_len):
+    """to(f_s/k) against by(k) on a long channel; k is large so that downsampled_to's Python loop stays short"""
+    kmin = max(2, -(-base_len // 1500))
+    k = rng.randint(kmin, 2 * kmin)
+    if rng.chance(0.7):
+        k = coprime10(k)
+    n = base_len + rng.choice([0, 1, k - 1, k, k + 1, rng.randint(0, 3 * k)])
+    if rng.chance(0.2):
+        n -= n % k  # a whole number of blocks: the input class of finding F3
+    for _ in range(20):
+        src = rule_src(rng, n)
+        f = freq_for(k * src["dt"])
+        if f is not None:
+            return {"stream": "long", "op": "tobylong", "src": src, "k": k, "reduce": rng.choice(REDUCERS),
+                    "where": "center" if rng.chance(0.8) else "left", "method": rng.choice(["safe", "ceil", "force"]), "freq": f}
+    return None
+
+
+def long_cases(tier, rng):
+    """long recordings (stream "long"): lengths a little beyond round sizes, up to 2^23 (quick) / 2^24 (thorough)"""
+    r = rng.fork("c04-long")
+    if tier == "quick":
+        k = coprime10(r.choice([3, 7, 9, 11, 13, 21, 33, 77, 101, 999, r.randint(3, 400)]))
+        yield by_long_case(r, 1 << 23, k, True, 5, rich=True)
+        p = r.randint(10, 21)
+        yield by_long_case(r, r.choice([1, 1, 2, 3]) << p, r.choice([1, 2, 3, 4, 5, 7, 8, 10, 16, 100, r.randint(1, 300)]), False, 2)
+        c = toby_long_case(r, 1 << r.randint(16, 22))
+        if c:
+            yield c
+        return
+    for p in range(10, 25):
+        for few in (True, False):
+            j = r.choice([1, 1, 2, 3]) if p <= 22 else 1
+            k = coprime10(r.randint(3, 400)) if few else r.choice([1, 2, 3, 4, 5, 7, 8, 10, 16, 100, r.randint(1, 300), r.randint(300, max(300, min(1 << 16, 1 << (p - 2))))])
+            yield by_long_case(r, j << p, k, few, r.randint(2, 5), rich=few)
+    for base in (10**4, 10**5, 10**6, 5 * 10**6, r.randint(1 << 16, 1 << 23), r.randint(1 << 16, 1 << 23)):
+        yield by_long_case(r, base, coprime10(r.randint(3, 400)), True, 3, rich=True)
+    for p in range(12, 24):
+        c = toby_long_case(r, 1 << p)
+        if c:
+            yield c
+
+
 def cases(tier, rng):
     quick = tier == "quick"
+    r_random = rng.fork("c04-random")  # drawn first: the random stream of a seed does not depend on the other streams
     # ---- corpus: finding inputs and minimised past disagreements
     c20 = cont(100, 10, list(range(20)))
     yield {"stream": "corpus", "op": "toby", "src": c20, "reduce": "mean", "where": "center", "method": "safe", "freq": 1e9 / 50, "k": 5}
@@ -930,6 +1343,9 @@ def cases(tier, rng):
         m = dict(m)
         m["stream"] = "malformed"
         yield m
+
+    # ---- long recordings
+    yield from long_cases(tier, rng)
 
     # ---- exhaustive small scope
     # by / to / to-vs-by on continuous channels
@@ -1022,7 +1438,7 @@ def cases(tier, rng):
 
     # ---- random
     N = 4000 if quick else 150000
-    r = rng.fork("c04-random")
+    r = r_random
     for i in range(N):
         sub = r.fork(i)
         kind = sub.choice(["over", "over", "to", "to", "toby", "by", "like", "like", "like-arbitrary", "arith"])
@@ -1124,6 +1540,8 @@ def extra_coverage(results):
     kinds, errs, sizes, reducers, methods, streams_err = {}, {}, {"0": 0, "1-10": 0, "11-100": 0, ">100": 0}, {}, {}, {}
     outside = 0
     f3 = 0
+    sizes[f">{LONG}"] = 0
+    longest = 0
     for r in results:
         c = r["case"]
         key = c["op"] + "/" + (c.get("src") or c.get("a"))["kind"]
@@ -1131,20 +1549,22 @@ def extra_coverage(results):
         a = r["impl"][0]
         if not a.startswith("ok"):
             errs[a] = errs.get(a, 0) + 1
-        n = len((c.get("src") or c.get("a"))["vals"])
-        sizes["0" if n == 0 else "1-10" if n <= 10 else "11-100" if n <= 100 else ">100"] += 1
-        if "reduce" in c:
-            reducers[c["reduce"]] = reducers.get(c["reduce"], 0) + 1
+        n = src_len(c.get("src") or c.get("a"))
+        longest = max(longest, n)
+        sizes["0" if n == 0 else "1-10" if n <= 10 else "11-100" if n <= 100 else ">100" if n <= LONG else f">{LONG}"] += 1
+        for red in [c["reduce"]] if "reduce" in c else c.get("reducers", []):
+            reducers[red] = reducers.get(red, 0) + 1
         if "method" in c:
             methods[c["method"]] = methods.get(c["method"], 0) + 1
         if not in_model(c):
             outside += 1
-        if c["op"] in ("to", "toby") and r["clause"]:
+        if c["op"] in ("to", "toby", "tobylong") and r["clause"]:
             f3 += 1
     return {
         "case_kinds": kinds,
         "error_kinds": errs,
         "source_sizes": sizes,
+        "longest_source": longest,
         "reducers": reducers,
         "to_methods": methods,
         "cases_outside_the_model_input_space (oracle only)": outside,
